@@ -13,9 +13,9 @@ import (
 func init() { props["C02"] = runC02 }
 
 func runC02(c *Ctx) {
-	n := int64(24000)
+	n := int64(200000)
 	if c.Thorough() {
-		n = 2000000
+		n = 16000000
 	}
 	c.Cases(n, func(idx int64, r *Rng) {
 		bc := genBattle(r, 4, r.Chance(1, 3))
